@@ -60,6 +60,12 @@ def oracle(case: Case, out: str):
         # a value already completed before the fault was armed may be served from the cache
         if g.startswith("ok:") and g == w0:
             continue
+        # which error reaches the caller depends on what is cached: a dependency completed before a
+        # fault was armed is served from the cache and does not raise, so the evaluation goes on to
+        # the next failing dependency (an armed fault or a true cycle). The class is pinned by the
+        # model (correspondence); the statement only asks that the failure reaches the caller.
+        if g in ("ERR", "CYCLE") and w in ("ERR", "CYCLE"):
+            continue
         if g in ("ERR", "CYCLE") and w.startswith("ok:"):
             return ("later-request-affected-or-retry-failed", f"request #{i} {c.reqs[i]}: got {g}, a simulation where the failed requests were never made returns {w}")
         return ("value-after-failure", f"request #{i} {c.reqs[i]}: got {g}, expected {w} (or {w0} from the cache)")
@@ -87,7 +93,7 @@ def nontrivial(case: Case, out: str) -> bool:
 
 
 def generate(rng: random.Random, tier: str):
-    n = 700 if tier == "quick" else 60000
+    n = 15000 if tier == "quick" else 100000
     out = []
     for i in range(n):
         faults: list = []
